@@ -1,5 +1,6 @@
 import FeatModel.Lemmas.C03Merge
 import FeatModel.Lemmas.C03Ops
+import FeatModel.Lemmas.C03Bridge
 /-!
 # C03 — matrix algebra operations equal their dense definitions (property theorems)
 
@@ -245,6 +246,73 @@ theorem C03.diagIndex_spec (rowBegin notFound row : Nat) (cols : List Nat) :
 theorem C03.shrink_spec {α : Type} [LT α] [DecidableLT α] [Neg α] [Zero α] (eps : α) (r : Row α) :
     (shrinkRow eps r).Sublist r ∧ ∀ p, p ∈ shrinkRow eps r ↔ p ∈ r ∧ ¬ (FeatModel.Vec.absK p.2 < eps) :=
   ⟨shrinkRow_sublist eps r, mem_shrinkRow eps r⟩
+
+/-! ## the same dense meaning as C01: `rowVal (csrRow A i) j = Csr.entry A i j` -/
+
+/-- bridge to the shared dense meaning of `Model/LA/Csr.lean` (the one the C01 theorems speak about) -/
+theorem C03.rowVal_eq_entry {α : Type} [CommRing α] (A : Csr α) (hA : A.wf = true) (i : Nat) (hi : i < A.rows) (j : Nat) :
+    rowVal (csrRow A i) j = A.entry i j :=
+  rowVal_csrRow_eq_entry ((Csr.wf_iff A).mp hA) hi j
+
+/-- `add_mat_mat_product` in terms of `Csr.entry`: `X'_ij = ⟦X⟧_ij + Σ_{stored D_ik} alpha·D_ik·⟦B⟧_kj` on the pattern of X -/
+theorem C03.addMatMat_entry {α : Type} [CommRing α] (allow : Bool) (alpha : α) (X D B : Csr α)
+    (hXw : X.wf = true) (hDw : D.wf = true) (hBw : B.wf = true)
+    (hX : ∀ i, SortedCols (csrRow X i)) (hB : ∀ k, SortedCols (csrRow B k))
+    (R : List (Row α)) (h : csrAddMatMat allow alpha X D B = .ok R) :
+    R.length = X.rows ∧ ∀ i, i < X.rows → ∃ r, R[i]? = some r ∧ rowCols r = rowCols (csrRow X i) ∧
+      ∀ j, rowVal r j = X.entry i j + ((csrRow D i).map fun kd =>
+        alpha * kd.2 * (if j ∈ rowCols (csrRow X i) then B.entry kd.1 j else 0)).sum := by
+  obtain ⟨hl, hr⟩ := C03.addMatMat_spec allow alpha X D B hX hB R h
+  have hdims : X.rows = D.rows ∧ D.cols = B.rows := by
+    unfold csrAddMatMat at h
+    split at h
+    · simp at h
+    · next hc => simp only [Bool.or_eq_true, bne_iff_ne, not_or, ne_eq, not_not] at hc; exact ⟨hc.1.1, hc.1.2⟩
+  refine ⟨hl, fun i hi => ?_⟩
+  obtain ⟨r, h1, h2, h3⟩ := hr i hi
+  refine ⟨r, h1, h2, fun j => ?_⟩
+  rw [h3 j, rowVal_csrRow_eq_entry ((Csr.wf_iff X).mp hXw) hi j]
+  congr 2
+  apply List.map_congr_left
+  intro kd hk
+  have hlt : kd.1 < B.rows := by
+    rw [← hdims.2]; exact mem_csrRow_col_lt ((Csr.wf_iff D).mp hDw) (by rw [← hdims.1]; exact hi) hk
+  rw [rowVal_csrRow_eq_entry ((Csr.wf_iff B).mp hBw) hlt j]
+
+/-! ## specification side of the two kernels whose code deviates (KNOWN_FINDINGS c03-edge:F1 / F2) -/
+
+/-- the documented scaled row norm `Σ_j scal_j·a_ij²` as a sum over the stored entries -/
+theorem C03.rowNorm2SqrScaled_spec {α : Type} [CommRing α] (A : Csr α) (scal : Array α) :
+    csrRowNorm2SqrScaledSpec A scal =
+      (List.range A.rows).map fun i => ((csrRow A i).map fun p => scal.getD p.1 0 * (p.2 * p.2)).sum := by
+  unfold csrRowNorm2SqrScaledSpec
+  exact List.map_congr_left (fun i _ => by rw [foldl_add_eq_sum (fun (p : Nat × α) => scal.getD p.1 0 * (p.2 * p.2)) (csrRow A i) 0, zero_add])
+
+/-- the code as it is (`scal[row]`) is not the documented formula: A = [[1 1],[0 0]], scal = (2, 3) gives 4, not 5
+    (the failing input of FINDINGS_C03.md F2, replayed on the real code by stream `edge`) -/
+theorem C03.rowNorm2SqrScaled_code_differs_from_spec :
+    csrRowNorm2SqrScaled ({ rows := 2, cols := 2, rowPtr := #[0, 2, 2], colInd := #[0, 1], val := #[1, 1] } : Csr Int)
+      #[2, 3] = [4, 0] ∧
+    csrRowNorm2SqrScaledSpec ({ rows := 2, cols := 2, rowPtr := #[0, 2, 2], colInd := #[0, 1], val := #[1, 1] } : Csr Int)
+      #[2, 3] = [5, 0] := by
+  decide
+
+/-- both readings agree when the scaling vector is constant (one of the clean input classes of the generator) -/
+theorem C03.rowNorm2SqrScaled_const_agree {α : Type} [CommRing α] (A : Csr α) (scal : Array α) (c : α)
+    (hc : ∀ k, scal.getD k 0 = c) : csrRowNorm2SqrScaled A scal = csrRowNorm2SqrScaledSpec A scal := by
+  unfold csrRowNorm2SqrScaled csrRowNorm2SqrScaledSpec
+  simp only [hc]
+
+/-- `bcsr_generic_norm2` as coded takes the root after every block: on the block row (3 0 | 4 0 ; 0 0 | 0 0) it returns
+    `sqrt(sqrt 9 + 16)` where the specification (root of `row_norm2sqr`) is `sqrt 25` (FINDINGS_C03.md F1) -/
+theorem C03.bcsrRowNorm2_code_differs_from_spec (sqrt : Int → Int) :
+    bcsrRowNorm2 sqrt ({ bh := 2, bw := 2, rows := 1, cols := 2, rowPtr := #[0, 2], colInd := #[0, 1], val := #[3, 0, 0, 0, 4, 0, 0, 0] } : Bcsr Int) = [sqrt (sqrt 9 + 16), sqrt (sqrt 0 + 0)] ∧
+    bcsrRowNorm2Spec sqrt ({ bh := 2, bw := 2, rows := 1, cols := 2, rowPtr := #[0, 2], colInd := #[0, 1], val := #[3, 0, 0, 0, 4, 0, 0, 0] } : Bcsr Int) = [sqrt 25, sqrt 0] := by
+  refine ⟨?_, rfl⟩
+  have h : bcsrRowNorm2 sqrt ({ bh := 2, bw := 2, rows := 1, cols := 2, rowPtr := #[0, 2], colInd := #[0, 1], val := #[3, 0, 0, 0, 4, 0, 0, 0] } : Bcsr Int)
+      = [sqrt (sqrt 9 + 4 * 4 + 0 * 0), sqrt (sqrt 0 + 0 * 0 + 0 * 0)] := rfl
+  rw [h]
+  simp
 
 /-! ## the hypotheses are satisfiable by non-trivial values -/
 
